@@ -46,4 +46,9 @@ MulSmall(a, k) ==
   LET lo == a[2] * k
       hi == a[1] * k + (lo \div M16)
   IN <<hi % M16, lo % M16>>
+\* full multiplication modulo 2^32: a * b = sum over the bytes b_k of b of (a * b_k) << 8k
+MulW(a, b) ==
+  LET bytes == BytesLE(b)
+  IN AddW(AddW(MulSmall(a, bytes[1]), Shl(MulSmall(a, bytes[2]), 8)),
+          AddW(Shl(MulSmall(a, bytes[3]), 16), Shl(MulSmall(a, bytes[4]), 24)))
 =============================================================================
